@@ -134,6 +134,9 @@ func c09LocalSetup() (root string, problem string) {
 		sb.WriteString("jobs:\n  j:\n    runs-on: ubuntu-latest\n    outputs:\n      o: v\n    steps:\n      - run: echo\n")
 		files[w.File] = sb.String()
 	}
+	for rel, content := range c09BrokenFiles() {
+		files[rel] = content
+	}
 	writeFiles(root, files)
 	// the spellings must name different files: read every file back through its own spelling
 	for rel, content := range files {
